@@ -21,7 +21,9 @@ RULE = (
     "files: torch.save zip and legacy, torch.jit.save, legacy-tar mock, model-archive-like zip, "
     "random zip, plain pickle, garbage, plus Hypothesis-generated variations (extra members, "
     "member order); (c) all ordered pairs of (b) as create_polyglot inputs, incl. pairs for which "
-    "no polyglot exists. Oracle: identification gives the same list twice and on a renamed copy, "
+    "no polyglot exists; (d) crash points: every polyglot-producing pair x an OSError injected at "
+    "the 1st/2nd/3rd call of shutil.copy / ZipFile.extract / ZipFile.write / "
+    "open(..., 'ab') made by create_polyglot. Oracle: identification gives the same list twice and on a renamed copy, "
     "leaves the file's sha256 and the directory listing unchanged; for zip-at-offset-0 files the "
     "zip-family formats match a table written from the README (TorchScript v1.4 <=> data+constants+"
     "version, v1.3 <=> data+constants, v1.1 <=> model.json+attributes, PyTorch v1.3 <=> data; v1.0 "
@@ -282,7 +284,98 @@ def check_polyglot(kind_a, kind_b, scratch, name_given=True):
     return None, outcome, fa, fb
 
 
+# (faults in the clean-up primitives themselves - os.remove, shutil.rmtree - are not injected:
+# if removal fails the file is still there by definition)
+FAULT_POINTS = ("shutil.copy", "zipfile.ZipFile.extract", "zipfile.ZipFile.write", "builtins.open:ab")
+
+
+class _Fault:
+    """raise OSError at the k-th call of one library function made (transitively) by
+    create_polyglot - an injected crash point; everything is restored afterwards"""
+
+    def __init__(self, point, k):
+        self.point, self.k, self.n, self.fired = point, k, 0, False
+
+    def __enter__(self):
+        import builtins
+        import shutil as sh
+        import zipfile as zf
+
+        self._saved = []
+
+        def wrap(owner, name, pred=None):
+            orig = getattr(owner, name)
+
+            def w(*a, **kw):
+                if pred is None or pred(*a, **kw):
+                    self.n += 1
+                    if self.n == self.k:
+                        self.fired = True
+                        raise OSError(f"injected fault at {self.point} call #{self.k}")
+                return orig(*a, **kw)
+
+            self._saved.append((owner, name, orig))
+            setattr(owner, name, w)
+
+        if self.point == "shutil.copy":
+            wrap(sh, "copy")
+        elif self.point == "shutil.rmtree":
+            wrap(sh, "rmtree")
+        elif self.point == "zipfile.ZipFile.extract":
+            wrap(zf.ZipFile, "extract")
+        elif self.point == "zipfile.ZipFile.write":
+            wrap(zf.ZipFile, "write")
+        elif self.point == "builtins.open:ab":
+            wrap(builtins, "open", lambda *a, **kw: len(a) > 1 and a[1] == "ab")
+        return self
+
+    def __exit__(self, *exc):
+        for owner, name, orig in reversed(self._saved):
+            setattr(owner, name, orig)
+
+
+def check_polyglot_fault(kind_a, kind_b, point, k, scratch):
+    """create_polyglot with an injected fault: inputs untouched, no temporary files or
+    directories left behind (the requested output may exist, possibly partial)"""
+    from fickling import polyglot
+
+    reset_pickle_bindings()
+    scratch.wipe()
+    os.makedirs(os.path.join(scratch.path, "in"))
+    a = os.path.join(scratch.path, "in", f"first_{kind_a}.bin")
+    b = os.path.join(scratch.path, "in", f"second_{kind_b}.bin")
+    make_real(kind_a, a, 1)
+    make_real(kind_b, b, 2)
+    sa, sb = sha(a), sha(b)
+    before = listing(scratch.path)
+    with _Fault(point, k) as fault:
+        try:
+            with contextlib.redirect_stdout(io.StringIO()), contextlib.redirect_stderr(io.StringIO()):
+                polyglot.create_polyglot(a, b, "requested_output.bin", print_results=False)
+            outcome = "returned"
+        except Exception as e:  # noqa: BLE001
+            outcome = f"raised {type(e).__name__}"
+    if not fault.fired:
+        return None, "fault-not-reached"
+    after = listing(scratch.path)
+    if not os.path.exists(a) or not os.path.exists(b) or sha(a) != sa or sha(b) != sb:
+        return f"create_polyglot({kind_a}, {kind_b}) with a fault at {point}#{k} damaged an input ({outcome})", "fault"
+    extra = sorted(x for x in set(after) - set(before) if x != "requested_output.bin")
+    gone = sorted(set(before) - set(after))
+    if extra or gone:
+        return (
+            f"create_polyglot({kind_a}, {kind_b}) with a fault at {point} call #{k} ({outcome}) left "
+            f"the working directory changed: new {extra}, missing {gone}",
+            "fault",
+        )
+    return None, "fault"
+
+
 def replay(case):
+    if case.get("op") == "fault":
+        with Scratch("c17") as scratch:
+            m = check_polyglot_fault(case["a"], case["b"], case["point"], case["k"], scratch)[0]
+            return Failure(case, m) if m else None
     with Scratch("c17") as scratch:
         if case["op"] == "synthetic":
             p = os.path.join(scratch.path, "syn.bin")
@@ -305,6 +398,7 @@ def shards(tier):
     out += [{"kind": "real", "part": i, "nparts": 2} for i in range(2)]
     out += [{"kind": "pairs", "part": i, "nparts": 6} for i in range(6)]
     out += [{"kind": "variations", "n": 60 if tier == "quick" else 1500, "idx": i} for i in range(2)]
+    out += [{"kind": "faults", "part": i, "nparts": 4} for i in range(4)]
     return out
 
 
@@ -354,6 +448,21 @@ def run_shard(spec, seed):
                 os.remove(p)
                 if m:
                     res.failures.append(Failure(case, f"real file {case}: {m}"))
+                    break
+            res.exhaustive = True
+        elif spec["kind"] == "faults":
+            # crash points: every polyglot-producing pair x fault point x call index
+            combos = [("zip", "jit"), ("jit", "zip"), ("mar", "legacy"), ("legacy", "mar"),
+                      ("mar", "legacy_tar"), ("legacy_tar", "mar"), ("zip", "garbage")]  # fmt: skip
+            cells = list(itertools.product(combos, FAULT_POINTS, (1, 2, 3)))
+            for i, ((a, b), point, k) in enumerate(cells):
+                if i % spec["nparts"] != spec["part"]:
+                    continue
+                m, klass = check_polyglot_fault(a, b, point, k, scratch)
+                case = {"op": "fault", "a": a, "b": b, "point": point, "k": k}
+                res.note(None, klass == "fault", klass=klass, sample=case)
+                if m:
+                    res.failures.append(Failure(case, m))
                     break
             res.exhaustive = True
         elif spec["kind"] == "pairs":
